@@ -176,12 +176,28 @@ class Impl:
         sh(["gcc"] + self.flags + ["-c", os.path.join(run.tree, "src", "filtering.c"), "-o", fo])
         # ... and the rest of the logging path, so that every registered name is used THROUGH its real caller
         callers = [fo]
-        for rel in ("src/message.c", "src/util/string.c", "src/action/log-syscall-exec.c", "src/action/log-message-dispatch.c"):
+        self.cfg_callers = []          # callers whose compiled code depends on the registry switches: built per configuration
+        d_off = self.cfgdir([])
+        extra_objs = []
+        for rel in ("src/filtering.c", "src/message.c", "src/util/string.c", "src/action/log-syscall-exec.c", "src/action/log-message-dispatch.c"):
+            srcp = os.path.join(run.tree, rel)
+            if self.preprocessed(srcp, d) != self.preprocessed(srcp, d_off):
+                self.cfg_callers.append(rel)
+                for dd, tag in ((d, "on"), (d_off, "off")):
+                    oo = os.path.join(dd, rel.replace("/", "__")[:-2] + ".o")
+                    p_ = subprocess.run(["gcc", "-I" + dd] + self.flags + ["-c", srcp, "-o", oo], stdout=subprocess.PIPE, stderr=subprocess.STDOUT, text=True)
+                    if p_.returncode == 0:
+                        extra_objs.append(oo)
+                continue
+            if rel == "src/filtering.c":
+                continue               # already compiled above
             oo = os.path.join(self.dir, rel.replace("/", "__")[:-2] + ".o")
-            sh(["gcc"] + self.flags + ["-c", os.path.join(run.tree, rel), "-o", oo])
+            sh(["gcc"] + self.flags + ["-c", srcp, "-o", oo])
             callers.append(oo)
+        if "src/filtering.c" in self.cfg_callers:
+            callers.remove(fo)
         und, dfn = set(), set()
-        for o in objs + [g, dr] + callers:
+        for o in objs + [g, dr] + callers + extra_objs:
             for line in sh(["nm", o]).stdout.split("\n"):
                 f = line.split()
                 if len(f) == 2 and f[0] == "U":
@@ -194,6 +210,11 @@ class Impl:
         so = os.path.join(self.dir, "stubs.o")
         sh(["gcc"] + self.flags + ["-c", st, "-o", so])
         self.common = [g, so, dr] + callers
+
+    def preprocessed(self, src, d):
+        p = subprocess.run(["gcc", "-E", "-P", "-I" + d] + [f for f in self.flags if f.startswith(("-I", "-D", "-std"))] + [src],
+                           stdout=subprocess.PIPE, stderr=subprocess.PIPE, text=True)
+        return p.stdout if p.returncode == 0 else "error: " + p.stderr[-300:]
 
     def arrays(self, d):
         """gcc -E of the three registry files under d/config.h -> {key: (names, ptrs)} or error text"""
@@ -224,6 +245,12 @@ class Impl:
         objs, err = self.compile_regs(d)
         if err:
             return None, err
+        for rel in getattr(self, "cfg_callers", []):
+            oo = os.path.join(d, rel.replace("/", "__")[:-2] + ".o")
+            p = subprocess.run(["gcc", "-I" + d] + self.flags + ["-c", os.path.join(self.run.tree, rel), "-o", oo], stdout=subprocess.PIPE, stderr=subprocess.STDOUT, text=True)
+            if p.returncode != 0:
+                return None, "%s: %s" % (rel, p.stdout[-1500:])
+            objs = objs + [oo]
         exe = os.path.join(d, "impl_registry")
         p = subprocess.run(["gcc"] + self.flags + objs + self.common + ["-o", exe, "-lpthread"], stdout=subprocess.PIPE, stderr=subprocess.STDOUT, text=True)
         if p.returncode != 0:
@@ -331,6 +358,12 @@ def configurations(run, js, universe):
     cfgs.append(("as-configured", cur))
     for g in universe:
         cfgs.append(("off:" + g, [x for x in universe if x != g]))
+    # one feature alone in its registry, everything else on (a registry reduced to a single switchable entry)
+    kinds = ("FILTER", "OUTPUT") if run.tier == "quick" else ("FILTER", "OUTPUT", "DATASOURCE")
+    for K in kinds:
+        grp = [g for g in universe if g.startswith("SNOOPY_CONF_%s_ENABLED_" % K)]
+        for g in grp:
+            cfgs.append(("alone:" + g, [x for x in universe if x == g or x not in grp]))
     singles_on = [("on:" + g, [g]) for g in universe]
     nrand = 50 if run.tier == "quick" else 500
     if run.tier != "quick":
@@ -520,6 +553,8 @@ def diagnose(js):
     for f, fn in js.get("callers", []):
         if (f, fn) not in allowed:
             why.append("%s uses %s: not one of the known name-based uses of the registries (message.c, filtering.c, configfile.c: doesNameExist/callByName; log-message-dispatch.c: dispatch)" % (f, fn))
+    for rel, gs in js.get("guard_mentions", []):
+        why.append("%s tests feature switch(es) outside the registries: %s" % (rel, ", ".join(gs)[:160]))
     if not js.get("dispatch_ok", True):
         why.append("snoopy_outputregistry_dispatch does not simply call callByName(CFG->output, ...)")
     for k in KEYS:
@@ -637,6 +672,51 @@ def options_stream(run, js, model, impl):
     res["mismatches"] = [(c, m, a) for c, m, a in zip(all_cases, mo, all_impl) if m != a]
     res["evaluations"] = len(all_cases)
     return res
+
+
+# ------------------------------------------------------------------------------------ code outside the registries that depends on a feature switch
+def codedep_stream(run, js, impl, universe, only=None):
+    """For every non-registry source file that tests feature switches: preprocess it with the switches it tests set every way
+    (everything else on).  More than one distinct text = the code a name runs there depends on a feature's enable switch.
+    -> [dict(file, guards, cfg_a, cfg_b, used_by, own_only)]"""
+    out = []
+    for rel, gs in js.get("guard_mentions", []):
+        if not rel.endswith(".c") or (only and rel != only):
+            continue
+        srcp = os.path.join(run.tree, rel)
+        gs = [g for g in gs if g in universe]
+        if len(gs) <= 4:
+            subsets = [[g for i, g in enumerate(gs) if (m >> i) & 1] for m in range((1 << len(gs)) - 1, -1, -1)]
+        else:
+            subsets = [list(gs), []] + [[x for x in gs if x != g] for g in gs] + [[g] for g in gs]
+        seen = {}
+        for sub in subsets:
+            defined = [x for x in universe if x not in gs or x in sub]
+            d = impl.cfgdir(defined)
+            t = impl.preprocessed(srcp, d)
+            shutil.rmtree(d, ignore_errors=True)
+            seen.setdefault(t, defined)
+            if len(seen) > 1:
+                break
+        if len(seen) > 1:
+            (ta, ca), (tb, cb) = list(seen.items())[:2]
+            text = open(srcp, encoding="utf-8", errors="replace").read()
+            syms = set(re.findall(r"^[A-Za-z_][\w \t\*]*?\b(snoopy_\w+)\s*\([^;{}]*\)\s*\{", text, re.M))
+            used_by = []
+            import glob as _g
+            for f in sorted(_g.glob(os.path.join(run.tree, "src", "**", "*.c"), recursive=True)):
+                if f == srcp:
+                    continue
+                tt = open(f, encoding="utf-8", errors="replace").read()
+                for sy in sorted(syms):
+                    if re.search(r"\b%s\s*\(" % re.escape(sy), tt):
+                        used_by.append("%s calls %s" % (os.path.relpath(f, run.tree), sy))
+            stem = os.path.basename(rel)[:-2]
+            own = [g for g in gs if g.split("_ENABLED_")[1] in (stem, stem[:-6] if stem.endswith("output") else stem)]
+            la, lb = ta.split("\n"), tb.split("\n")
+            diff = [l for l in la if l.strip() and l not in lb][:3] + [l for l in lb if l.strip() and l not in la][:3]
+            out.append({"file": rel, "guards": gs, "cfg_a": ca, "cfg_b": cb, "used_by": used_by, "own_only": own == gs and not used_by, "diff": diff})
+    return out
 
 
 def corpus_jobs(universe):
@@ -765,6 +845,20 @@ def check(run):
                       {"stream": "config", "failing_input": {"configuration": describe(universe, defined), "defined": defined, "compiler": err[-1500:]},
                        "cases": ["arrays\tds\t" + glist(defined)]})
         nv += 1
+    # code outside the registries whose text depends on a feature switch
+    for cd in codedep_stream(run, js, impl, universe):
+        n_eval += 1
+        if cd["own_only"]:
+            continue       # an implementation file testing only its own switch and used by nobody else: dead when off; the obligation reports it
+        off = [g for g in universe if g not in cd["cfg_b"]]
+        run.violation("spec:code-depends-on-switch", "spec_violation",
+                      "%s compiles to different code depending on the feature switch(es) %s (e.g. with %s off: %s)%s: what the names served by this code run "
+                      "changes with another feature's switch" % (cd["file"], ", ".join(cd["guards"])[:200], ", ".join(off)[:200] or "(none)", " / ".join(x.strip()[:80] for x in cd["diff"])[:300],
+                                                                 ("; " + "; ".join(cd["used_by"][:3])) if cd["used_by"] else ""),
+                      {"stream": "codedep", "failing_input": {"file": cd["file"], "switches": cd["guards"], "configuration_a": describe(universe, cd["cfg_a"]),
+                                                               "configuration_b": describe(universe, cd["cfg_b"]), "differing_lines": cd["diff"], "used_by": cd["used_by"]},
+                       "cases": ["codedep\t%s" % cd["file"]]})
+        nv += 1
     # EXTENSION stream (option registry of configfile.c)
     ext = options_stream(run, js, model, impl)
     n_eval += ext["evaluations"]
@@ -858,6 +952,17 @@ def replay(run, path):
     impl = Impl(run, js)
     impl.prepare(list(universe))
     bad = 0
+    for l in [l for l in cases if l.startswith("codedep")]:
+        rel = l.split("\t")[1]
+        res = codedep_stream(run, js, impl, universe, only=rel)
+        print("case: ", l)
+        if res and not res[0]["own_only"]:
+            print(" %s: different code for %s vs %s: %s" % (rel, describe(universe, res[0]["cfg_a"]), describe(universe, res[0]["cfg_b"]), " / ".join(x.strip()[:80] for x in res[0]["diff"])))
+            print(" -> SPEC-VIOLATION (code depends on a feature switch)")
+            bad += 1
+        else:
+            print(" -> ok")
+    cases = [l for l in cases if not l.startswith("codedep")]
     if any(l.startswith("opt") for l in cases):
         ext = options_stream(run, js, model, impl)
         for c, a, sl in ext["spec_bad"]:
